@@ -117,8 +117,8 @@ func decodeKey(k string) string { return k }
 func init() {
 	register(&CheckDef{
 		ID: "C04", Level: "exploration",
-		Technique: "deterministic simulation: complete choice-tree sweeps of seeded small wordlist recipes on the scripted tape; exact rational law of typed token sequences vs the product-form reference law",
-		Rule:      "case = one leaf (complete choice path of one WLRecipe.Generate call); evaluations = leaves executed; distinct_nontrivial = distinct configurations swept completely with at least 2 possible passwords",
+		Technique:   "deterministic simulation: complete choice-tree sweeps of seeded small wordlist recipes on the scripted tape; exact rational law of typed token sequences vs the product-form reference law",
+		Rule:        "case = one leaf (complete choice path of one WLRecipe.Generate call); evaluations = leaves executed; distinct_nontrivial = distinct configurations swept completely with at least 2 possible passwords",
 		Assumptions: []string{"leaves are weighted by prod 1/n_i (C01)", "title-casing is strings.Title; separator recipes are uniform over their strings (C02)", "word lists respect the statement's premise by construction"},
 		Episodes:    map[string]int{"quick": 2400, "thorough": 36000},
 		TwiceEvery:  8,
@@ -151,8 +151,8 @@ func init() {
 	})
 	register(&CheckDef{
 		ID: "C06", Level: "exploration",
-		Technique: "deterministic simulation: exact output law from complete choice-tree sweeps (wordlist recipes: whole tree; character recipes: first candidate level renormalised by the rejected mass) compared with 2^-Entropy()",
-		Rule:      "case = one leaf of a swept configuration; evaluations = leaves executed; distinct_nontrivial = distinct configurations whose exact maximal output probability was compared with the reported entropy",
+		Technique:   "deterministic simulation: exact output law from complete choice-tree sweeps (wordlist recipes: whole tree; character recipes: first candidate level renormalised by the rejected mass) compared with 2^-Entropy()",
+		Rule:        "case = one leaf of a swept configuration; evaluations = leaves executed; distinct_nontrivial = distinct configurations whose exact maximal output probability was compared with the reported entropy",
 		Assumptions: []string{"leaves are weighted by prod 1/n_i (C01)", "character recipes: retries are memoryless, so the final law is the first-level law divided by (1 - rejected mass) (supported by C02's level sweeps)", "tolerance: max(1e-4, 4 ulp of the float32 value) bits"},
 		Episodes:    map[string]int{"quick": 3000, "thorough": 30000},
 		TwiceEvery:  8,
@@ -299,13 +299,13 @@ func compareLaws(got, want Law) string {
 }
 
 type C06Spec struct {
-	Large  bool      `json:"large,omitempty"` // too large to sweep: reported entropy vs the model's exact count / formula
-	Shipped string   `json:"shipped,omitempty"`
-	WL     *WLCfg    `json:"wl,omitempty"`
-	Char   *CharCfg  `json:"char,omitempty"`
-	Orders OrderSpec `json:"orders"`
-	Budget int       `json:"budget"`
-	Seed   uint64    `json:"seed"`
+	Large   bool      `json:"large,omitempty"` // too large to sweep: reported entropy vs the model's exact count / formula
+	Shipped string    `json:"shipped,omitempty"`
+	WL      *WLCfg    `json:"wl,omitempty"`
+	Char    *CharCfg  `json:"char,omitempty"`
+	Orders  OrderSpec `json:"orders"`
+	Budget  int       `json:"budget"`
+	Seed    uint64    `json:"seed"`
 }
 
 // checkEntropyBound: pmax is the exact maximal output probability.
